@@ -1401,7 +1401,33 @@ class FnTranslator:
         return self.with_binds(lst.binds, code)
 
     # -------- whole function
+    def translate_synthetic_mask(self):
+        if not self.mod.get('_dual_mask_ok'):
+            raise TransError('DualTransform.apply_to_mask / INTER_NEAREST no longer have the expected form')
+        target = self.registry.get(self.spec.cls + '_apply')
+        if target is None:
+            raise TransError('image path of %s is not translated' % self.spec.cls)
+        if self.ensure is not None:
+            self.ensure(target)
+        args = []
+        for p, t in target.params:
+            args.append('(0)%Z' if p == 'interpolation' else vname(p))
+        selfargs = ['self_' + a for a in sorted(target.self_attrs)]
+        self.spec.ret = target.ret
+        self.ret_ty = target.ret
+        self.monadic = target.raises
+        self.effect_used = target.raises
+        params = ' '.join('(%s : %s)' % (vname(p), coq_type(t)) for p, t in self.spec.params)
+        selfp = ' '.join('(self_%s : %s)' % (a, coq_type(t)) for a, t in sorted(self.spec.self_attrs.items()))
+        rty = coq_type(target.ret)
+        if target.raises:
+            rty = '(res %s)' % rty
+        return 'Definition %s %s %s : %s :=\n (%s %s).\n' % (
+            self.spec.coq_name, selfp, params, rty, target.coq_name, ' '.join(selfargs + args))
+
     def translate(self):
+        if getattr(self.spec, 'synthetic_mask', False):
+            return self.translate_synthetic_mask()
         node = self.spec.node
         env = {p: t for p, t in self.spec.params}
         # local list accumulators declared as `name: List[...] = []` or `name = []`
@@ -1554,6 +1580,18 @@ def class_method_specs(m, tree, cspec, errors):
         sp.param_keys = keys
         sp.cls_nodes = nodes
         specs.append(sp)
+    # inherited DualTransform.apply_to_mask: self.apply(img, **{k: INTER_NEAREST if k == "interpolation" else v ...})
+    methods = cspec.get('methods', APPLY_METHODS)
+    if 'apply_to_mask' in methods and find('apply_to_mask') is None and find('apply') is not None \
+            and any(sp.name == 'apply' for sp in specs):
+        sp = FnSpec('apply_to_mask', [('img', ktypes['img'])] + [(k, ktypes[k]) for k in keys],
+                    cls=name, self_attrs=self_attrs, coq_name=name + '_apply_to_mask')
+        sp.synthetic_mask = True
+        sp.node = m['_dual_mask_node']
+        sp.decos = []
+        sp.param_keys = keys
+        sp.cls_nodes = nodes
+        specs.append(sp)
     return specs
 
 
@@ -1662,6 +1700,21 @@ def translate_all(repo, modules, out_dir):
                 spec.coq_name = spec.cls + '_' + spec.name
             registry[spec.coq_name if spec.cls else spec.name] = spec
             m['_specs'].append(spec)
+    # the inherited mask path: DualTransform.apply_to_mask must have the known shape
+    ti_src = open(os.path.join(repo, 'dicaugment/core/transforms_interface.py')).read()
+    ti_tree = ast.parse(ti_src)
+    dual_mask = find_functions(ti_tree).get('DualTransform.apply_to_mask')
+    dual_ok = False
+    if dual_mask is not None:
+        body = [b for b in dual_mask.body if not (isinstance(b, ast.Expr) and isinstance(b.value, ast.Constant))]
+        want = "return self.apply(img, **{k: INTER_NEAREST if k == 'interpolation' else v for k, v in params.items()})"
+        dual_ok = len(body) == 1 and ast.unparse(body[0]).replace('"', "'") == want
+    nearest_ok = any(isinstance(n, ast.Assign) and len(n.targets) == 1 and isinstance(n.targets[0], ast.Name)
+                     and n.targets[0].id == 'INTER_NEAREST' and isinstance(n.value, ast.Constant) and n.value.value == 0
+                     for n in ti_tree.body)
+    for m in modules:
+        m['_dual_mask_node'] = dual_mask
+        m['_dual_mask_ok'] = dual_ok and nearest_ok
     # class methods (apply-like), with the parameter-dict binding made explicit
     NAME_TYPES_P.clear()
     NAME_TYPES_P.update({k: parse_type(v) for k, v in NAME_TYPES.items()})
